@@ -1,6 +1,7 @@
 package zz_verifsim
 
 import (
+	"sort"
 	"fmt"
 
 	"github.com/relab/gorums"
@@ -209,6 +210,120 @@ func (f *fuzzer) mutate(m protoreflect.Message, depth int, rate float64) {
 }
 
 // fill invents the content of a message: every field present with probability 1/2, all material invented.
+// injectCorrupted delivers a genuine recorded message in which every signature has been spoiled (signer labels,
+// views, hashes and structure intact, so it passes every check that comes before signature verification), lets the
+// replica handle it, and delivers the very same bytes again: nothing in it verifies, so the protocol state must be
+// the same before and after each delivery — also at a replica that caches verification results.
+func (a *adversary) injectCorrupted(in Inject, target *Node, pm proto.Message) {
+	w, f := a.w, a.fz
+	if len(f.pool[in.Kind]) == 0 || !target.honest {
+		return
+	}
+	raw := f.pool[in.Kind][f.r.intn(len(f.pool[in.Kind]))]
+	if proto.Unmarshal(raw, pm) != nil {
+		return
+	}
+	if corruptSigs(pm.ProtoReflect()) == 0 {
+		return // carries no signature at all (e.g. only the genesis certificate): a valid message
+	}
+	buf, err := proto.Marshal(pm)
+	if err != nil {
+		return
+	}
+	w.fault("fuzz:all-signatures-spoiled-" + in.Kind)
+	w.logf("INJECT n%d->n%d %s all signatures spoiled, twice", in.From, in.To, in.Kind)
+	released := false
+	drain := func() bool {
+		for i := 0; i < 500; i++ {
+			handled := false
+			target.curEvent = nil
+			w.guard(target, "tick", func() { handled = target.el.Tick(w.ctx) })
+			if target.crashed {
+				return false
+			}
+			if !handled {
+				return true
+			}
+			if v, ok := target.curEvent.(hotstuff.VoteMsg); ok && v.Deferred {
+				released = true
+			}
+			w.step++
+			w.afterStep(target)
+			if w.viol != nil {
+				return false
+			}
+		}
+		return false
+	}
+	for round := 1; round <= 2; round++ {
+		m := &Msg{fromID: hotstuff.ID(in.From), to: target, kind: in.Kind, wire: buf, forged: true}
+		if target.crashed || target.pausedUntil > w.now() || !drain() {
+			w.deliver(m, in.From)
+			return
+		}
+		before := target.snap()
+		released = false
+		w.deliver(m, in.From)
+		if target.crashed || !drain() {
+			return
+		}
+		after := target.snap()
+		if released {
+			w.probe("c10-deferred-vote-released")
+			return
+		}
+		w.probe("c10-state-compared")
+		if round == 2 {
+			w.probe("c10-state-compared-on-redelivery")
+		}
+		if before != after {
+			w.violate("C10", "C10/state-changed", target, "%s handled (delivery %d) a %s message in which every signature is spoiled, and its state changed from {%v} to {%v}", target, round, in.Kind, before, after)
+			return
+		}
+	}
+}
+
+// corruptSigs flips one byte in every signature value below m and returns how many it spoiled.
+func corruptSigs(m protoreflect.Message) int {
+	n := 0
+	name := string(m.Descriptor().Name())
+	m.Range(func(fd protoreflect.FieldDescriptor, v protoreflect.Value) bool {
+		switch {
+		case fd.Kind() == protoreflect.BytesKind && string(fd.Name()) == "Sig" &&
+			(name == "ECDSASignature" || name == "EDDSASignature" || name == "BLS12Signature" || name == "BLS12AggregateSignature"):
+			b := append([]byte(nil), v.Bytes()...)
+			if len(b) > 0 {
+				b[len(b)/2] ^= 0x5a
+				m.Set(fd, protoreflect.ValueOfBytes(b))
+				n++
+			}
+		case fd.IsMap():
+			if fd.MapValue().Kind() == protoreflect.MessageKind {
+				// keys in ascending order: Range over a protobuf map is unordered
+				var keys []uint64
+				v.Map().Range(func(k protoreflect.MapKey, _ protoreflect.Value) bool {
+					keys = append(keys, k.Uint())
+					return true
+				})
+				sort.Slice(keys, func(i, j int) bool { return keys[i] < keys[j] })
+				for _, k := range keys {
+					n += corruptSigs(v.Map().Get(protoreflect.ValueOfUint32(uint32(k)).MapKey()).Message())
+				}
+			}
+		case fd.IsList():
+			if fd.Kind() == protoreflect.MessageKind {
+				for i := 0; i < v.List().Len(); i++ {
+					n += corruptSigs(v.List().Get(i).Message())
+				}
+			}
+		case fd.Kind() == protoreflect.MessageKind:
+			n += corruptSigs(v.Message())
+		}
+		return true
+	})
+	return n
+}
+
 func (f *fuzzer) fill(m protoreflect.Message, depth int) {
 	fds := m.Descriptor().Fields()
 	oneofDone := map[string]bool{}
@@ -311,6 +426,10 @@ func (a *adversary) injectWire(in Inject) {
 		return
 	}
 	pm := newPB(in.Kind)
+	if in.Mode == "corrupt" {
+		a.injectCorrupted(in, target, pm)
+		return
+	}
 	garbage := f.r.p(0.4) || len(f.pool[in.Kind]) == 0
 	if garbage {
 		f.fill(pm.ProtoReflect(), 0)
